@@ -128,8 +128,8 @@ func loadProgram(repo string) (*Program, error) {
 			p.Pures[pkgPath+"."+pf.Name] = pf
 		}
 		for _, c := range pc.Contracts {
-			all := [][]*Clause{c.Lets, c.Requires, c.Ensures, c.Assigns}
-			for _, g := range append(append([]*Clause{}, c.GEntry...), c.GReturn...) {
+			all := [][]*Clause{c.Lets, c.Requires, c.Ensures, c.Assigns, c.Asserts}
+			for _, g := range append(append(append([]*Clause{}, c.GEntry...), c.GReturn...), c.GAt...) {
 				all = append(all, []*Clause{g, g.Target})
 				if g.Cond != nil {
 					all = append(all, []*Clause{g.Cond})
